@@ -41,6 +41,44 @@ def gen(rng, tier):
         yield dict(family="single-op", vars=[z, x, y, u], ops=[op])
 
 
+    # read-only methods must leave their operand untouched: conversions of integer-valued operands whose mantissa
+    # could be handed out or converted in place (exponent = 19 * words), then the operand is read again
+    for _ in range(150 * n):
+        w = rng.choice([1, 2, 2, 3, 4])
+        c = int("".join("%019d" % rng.randint(B // 10 if i == 0 else 0, B - 1) for i in range(w)))
+        x = fin(c, rng.choice([0, 0, 0, 1, 19, -1, -19]), neg=rng.randint(0, 1), mode=rng.randint(0, 5))
+        z = zero(0, prec=rng.choice([0, 34, 60]), mode=rng.randint(0, 5))
+        ops = [rng.choice(["Int 1", "Rat 1", "Int64 1", "Uint64 1", "BitsExp 1", "MantExp 1 -", "GobEncode 1", "IsInt 1"]) for _ in range(3)]
+        ops += ["Int 1", "Add 0 1 1", "Cmp 0 1"]
+        yield dict(family="readers-then-reuse", vars=[z, x], ops=ops)
+    # receivers of precision 0: the precision they acquire is documented per setter (digit counts of big arguments
+    # with high / low leading digits and lengths around the multiples of 19 and around 34)
+    for _ in range(250 * n):
+        z = zero(rng.randint(0, 1), prec=0, mode=rng.randint(0, 5))
+        nd = rng.choice([1, 18, 19, 20, 33, 34, 35, 36, 37, 38, 39, 41, 57, 58, 76, 77, 100, 300, rng.randint(30, 120)])
+        lead = rng.choice(["9", "99", "8", "877", "1", "10", "12", "5", "7"])
+        body = "".join(rng.choice("0123456789") for _ in range(nd))
+        v = int((lead + body)[:nd]) or 9
+        if rng.randint(0, 3) == 0:
+            v = 10 ** (nd - 1) * rng.choice([1, 9]) + rng.choice([0, 0, 1])
+        v *= rng.choice([1, -1])
+        k = rng.randint(0, 3)
+        if k == 0:
+            op = "SetInt 0 %d" % v
+        elif k == 1:
+            op = "SetRat 0 %d 1" % v
+        elif k == 2:
+            from fractions import Fraction
+            den = rng.choice([3, 7, 10 ** 40 + 1, 9 * 10 ** 50 + 7, common.rand_coeff(rng, 60)])
+            f = Fraction(v, den)
+            op = "SetRat 0 %d %d" % (f.numerator, f.denominator)
+        else:
+            x = common.rand_fin(rng, rng.choice([1, 34, 35, 60, 90]), wide=False)
+            yield dict(family="prec0-setters", vars=[z, x], ops=[rng.choice(["Set 0 1", "Neg 0 1", "Abs 0 1", "Add 0 1 1", "Mul 0 1 1", "SetMantExp 0 1 3"])])
+            continue
+        yield dict(family="prec0-setters", vars=[z], ops=[op])
+
+
 def digits(n):
     return len(str(abs(n))) if n else 0
 
